@@ -76,6 +76,7 @@ FUNCS = [
     ("src/group1.c", "rdsparser_group1_parse", "m_group1_parse", []),
     ("src/group4.c", "rdsparser_group4_parse", "m_group4_parse", []),
     ("src/parser.c", "rdsparser_parser_process", "m_parser_process", []),
+    ("src/rdsparser.c", "rdsparser_clear", "m_clear", []),
     ("src/string.c", "rdsparser_string_convert", "m_string_convert_n", ["-DRDSPARSER_DISABLE_UNICODE"]),
     ("src/string.c", "rdsparser_string_update_single", "m_update_single_n", ["-DRDSPARSER_DISABLE_UNICODE"]),
 ]
@@ -280,7 +281,7 @@ def read(node, ctx):
     if lv[0] == "mem":
         return ctx.rd(lv[1])
     if lv[0] == "memelem":
-        return "(nth (Z.to_nat %s) %s 0)" % (lv[2], ctx.rd(lv[1]))
+        return "(@nth Z (Z.to_nat %s) %s 0)" % (lv[2], ctx.rd(lv[1]))
     if lv[0] == "arr":
         a = ctx.arrs[lv[1]]
         if not 0 <= lv[2] < len(a) or a[lv[2]] is None:
@@ -290,7 +291,7 @@ def read(node, ctx):
         a = ctx.arrs[lv[1]]
         if any(x is None for x in a):
             raise Unsupported("dynamic index into a partly initialised array")
-        return "(nth (Z.to_nat %s) [%s] 0)" % (lv[2], "; ".join(a))
+        return "(@nth Z (Z.to_nat %s) [%s] 0)" % (lv[2], "; ".join(a))
     raise Unsupported("read")
 
 
@@ -303,7 +304,7 @@ def write(node, ctx, term):
     elif lv[0] == "mem":
         ctx.wr(lv[1], term)
     elif lv[0] == "memelem":
-        ctx.wr(lv[1], "(upd (Z.to_nat %s) %s %s)" % (lv[2], term, ctx.rd(lv[1])))
+        ctx.wr(lv[1], "(@upd Z (Z.to_nat %s) %s %s)" % (lv[2], term, ctx.rd(lv[1])))
     elif lv[0] == "arr":
         ctx.arrs[lv[1]][lv[2]] = ctx.let("%s_%d_" % (lv[1], lv[2]), term)
     else:
@@ -391,9 +392,9 @@ def expr(node, ctx):
                     ctx.sh.garrs[gname] = ev(ctx.sh.gtables[gname])
                 idxs = list(reversed(idxs))
                 if len(idxs) == 1:
-                    return "(nth (Z.to_nat %s) g_%s 0)" % (expr(idxs[0], ctx), gname)
+                    return "(@nth Z (Z.to_nat %s) g_%s 0)" % (expr(idxs[0], ctx), gname)
                 if len(idxs) == 2:
-                    return "(nth (Z.to_nat %s) (nth (Z.to_nat %s) g_%s []) 0)" % (expr(idxs[1], ctx), expr(idxs[0], ctx), gname)
+                    return "(@nth Z (Z.to_nat %s) (@nth (list Z) (Z.to_nat %s) g_%s []) 0)" % (expr(idxs[1], ctx), expr(idxs[0], ctx), gname)
                 raise Unsupported("table with more than two dimensions")
         # two-dimensional member: a[i][j]
         if k == "ArraySubscriptExpr":
@@ -401,7 +402,7 @@ def expr(node, ctx):
             if base["kind"] == "ArraySubscriptExpr" and strip(base["inner"][0])["kind"] == "MemberExpr":
                 path = member_path(strip(base["inner"][0]), ctx)
                 ctx.sh.kinds[path] = 2
-                return "(nth (Z.to_nat %s) (nth (Z.to_nat %s) %s []) 0)" % (
+                return "(@nth Z (Z.to_nat %s) (@nth (list Z) (Z.to_nat %s) %s []) 0)" % (
                     expr(node["inner"][1], ctx), expr(base["inner"][1], ctx), ctx.rd(path))
         return read(node, ctx)
     if k in ("ImplicitCastExpr", "CStyleCastExpr"):
